@@ -89,6 +89,17 @@ CHECKS = {
             "trace hooks give the removed points",
             "Sampled networks x 6 planted kinds x 4 algorithms; exploration.",
             "DESIGN.md §2 C20", TRUST),
+    "C05": ("reference-model monitor by differentiation: design-matrix rows and misclosures recorded by the trace hook "
+            "(and by the in-process driver netdrv) vs an independent longdouble implementation of the 13 observation "
+            "functions differentiated by 4th-order central differences with a Richardson consistency check",
+            "Adversarial single-observation geometries and whole generated networks, all axes/handedness conventions, "
+            "every fixed/free/constrained mix; every coefficient, index and misclosure compared; exploration.",
+            "DESIGN.md §2 C05", TRUST),
+    "C13": ("relational monitor over export/adjust chains (3 rounds) on the real binary: parsed models compared by gama's "
+            "own parser (modeldrv) and an independent reader, adjustments compared in the physical frame, zero "
+            "iterations and fixed point demanded",
+            "Sampled networks with every observation/cluster type and attribute, frames, removed items; exploration.",
+            "DESIGN.md §2 C13", TRUST),
 }
 
 NOT_APPLICABLE = {}
